@@ -189,6 +189,22 @@ theorem delete_at_last_release {s : State} (h : Reachable s) :
       ∃ (t : Nat) (th : Th), s.ts[t]? = some th ∧ pend th.pc = true) :=
   ⟨fun hd hr => ((shape_reachable h).1 hd hr).2, fun a b c => (inv_reachable h).pending ⟨a, b, c⟩⟩
 
+/-- Full-strength progress form of "disappears exactly when its last holder releases it" at
+atomic-step granularity: from every reachable state in which a flagged segment is unreferenced and
+still on disk, the run can be continued to a state where the directory is gone or somebody holds a
+reference again.  NOT proved (the model has no fairness notion; it needs driving the current mutex
+holder out of its critical section).  Proved instead: the safety half `delete_at_last_release`
+(= `delete_at_last_release_partial`), `last_release_commits`, and completion without interference
+`last_release_deletes`. -/
+def deleteEventuallyStatement : Prop :=
+  ∀ s : State, Reachable s → s.sh.mbd = true → s.sh.dir = true → s.sh.rc = 0 →
+    ∃ s', Path s s' ∧ (s'.sh.dir = false ∨ s'.sh.rc > 0)
+
+theorem delete_at_last_release_partial {s : State} (h : Reachable s) :
+    (s.sh.down = false → s.sh.rc > 0 → s.sh.dir = true) ∧
+    (s.sh.mbd = true → s.sh.dir = true → s.sh.rc = 0 →
+      ∃ (t : Nat) (th : Th), s.ts[t]? = some th ∧ pend th.pc = true) := delete_at_last_release h
+
 /-- the step that drops the last reference of a flagged segment leaves that thread committed to
 the delete (`drMbd`), and from there each of its steps is forced: it reaches `MustRMAll` unless a
 new reference appeared, in which case that reference's last `DecRef` inherits the obligation. -/
